@@ -325,8 +325,9 @@ def expand(run, s):
 
 # ------------------------------------------------------------------ the check
 def nontrivial(case, impl):
-    # a produce request or an outcome occurs in the trace
-    return len(impl) > 6
+    # the trace contains a produce request or an outcome (same criterion as producer_check.nontrivial)
+    from props import producer_check as PC
+    return PC.nontrivial(case, impl)
 
 
 def run(ck):
